@@ -46,6 +46,8 @@ OBLIGATIONS = [
     "SkVerif.C12.parallel_two_schedules_agree",
     "SkVerif.C12.completion_order_collection_depends_on_schedule",
     "SkVerif.C12.args_preserved",
+    "SkVerif.C12.all_args_preserved",
+    "SkVerif.C12.in_place_site_on_any_argument_is_visible",
     "SkVerif.C12.hampel_caller_unchanged",
     "SkVerif.C12.original_code_hampel_mutated_caller",
     "SkVerif.C12.replaces_index_keeps_data",
@@ -224,6 +226,38 @@ def mk_frame(seed, n, ikind="range", start=0, outlier=False, nan=False):
     return pd.DataFrame({"c0": a, "c1": b * 2.0 + 1.0})
 
 
+EXOG_FORMS = ["nan", "nan1", "full", "mixed", "nanview"]
+EXOG_EXTRA = 10      # rows after the training stretch: update batch (3) + the longest horizon after it
+
+
+def mk_exog(seed, n, ikind="range", start=0, form="nan"):
+    """exogenous data X next to a series of length n, with `EXOG_EXTRA` further rows (update batch, future values):
+    nan     two float columns holding a lagged regressor (lags 2 and 3: the leading rows are missing, which is what
+            lagging produces) + missing readings scattered over the training AND the future rows; one float block
+    nan1    the same with a single column
+    full    two complete float columns
+    mixed   an int column next to a float column with missing values (no common dtype: to_numpy() copies)
+    nanview as `nan`, built as a pandas view on a wider array owned by the caller (columns of a 3-column buffer)"""
+    r = np.random.RandomState(seed + 4242)
+    m = n + EXOG_EXTRA
+    driver = np.cumsum(r.normal(size=m + 3))
+    lag2 = np.concatenate([[np.nan] * 2, driver[:m - 2]])
+    lag3 = np.concatenate([[np.nan] * 3, driver[:m - 3]])
+    idx = pd.RangeIndex(start, start + m) if ikind == "range" else pd.Index(np.arange(start, start + m, dtype="int64"))
+    if form == "full":
+        return pd.DataFrame(np.column_stack([driver[:m], driver[1:m + 1] * 0.5 + 1.0]), index=idx, columns=["x0", "x1"])
+    holes = sorted(set([int(j) for j in r.choice(np.arange(4, n - 1), size=2, replace=False)] + [n + 1, n + 4]))
+    lag2[holes] = np.nan
+    if form == "nan1":
+        return pd.DataFrame(lag2.reshape(-1, 1).copy(), index=idx, columns=["lag2"])
+    if form == "mixed":
+        return pd.DataFrame({"k": np.arange(m, dtype="int64") % 4, "lag2": lag2}, index=idx)
+    if form == "nanview":
+        buf = np.column_stack([lag2, lag3, driver[:m]])
+        return pd.DataFrame(buf[:, :2], index=idx, columns=["lag2", "lag3"], copy=False)
+    return pd.DataFrame(np.column_stack([lag2, lag3]), index=idx, columns=["lag2", "lag3"])
+
+
 def mk_panel(seed, n_inst=10, length=16, dims=1):
     """(nested DataFrame, y classes as str, y regression floats)"""
     r = np.random.RandomState(seed)
@@ -299,6 +333,22 @@ def table():
         [("slow", slow_naive(0.03)), ("b", PolynomialTrendForecaster())], final_regressor=LinearRegression(), n_jobs=nj))
     T["fc:red_forest"] = dict(fam="fc", mode="o", njobs=True, make=lambda rs, nj: make_reduction(
         RandomForestRegressor(n_estimators=5, random_state=rs, n_jobs=nj), strategy="recursive", window_length=3))
+    # reduction forecasters over regressors that accept missing values (trees, histogram boosting): the forecasters that
+    # USE exogenous data, also when it has gaps.  Only run with exogenous data (`exog_only`): without it the red_* entries
+    # of the shared table already cover every strategy.
+    from sklearn.tree import DecisionTreeRegressor
+    from sklearn.pipeline import make_pipeline as _mkpipe
+    from sktime.transformations.panel.reduce import Tabularizer as _Tab
+    _tree = lambda rs: DecisionTreeRegressor(max_depth=4, random_state=rs)
+    for strat, mode in (("recursive", "o"), ("direct", "r"), ("multioutput", "r")):
+        T["fc:redx_tree_" + strat] = dict(fam="fc", mode=mode, exog_only=True, make=lambda rs, nj, strat=strat: make_reduction(
+            _tree(rs), strategy=strat, window_length=3))
+    T["fc:redx_tree5_recursive"] = dict(fam="fc", mode="o", exog_only=True, make=lambda rs, nj: make_reduction(
+        DecisionTreeRegressor(min_samples_leaf=2, random_state=rs), strategy="recursive", window_length=5))
+    T["fc:redx_ts_recursive"] = dict(fam="fc", mode="o", exog_only=True, make=lambda rs, nj: make_reduction(
+        _mkpipe(_Tab(), _tree(rs)), scitype="time-series-regressor", strategy="recursive", window_length=3))
+    T["fc:redx_ts_direct"] = dict(fam="fc", mode="r", exog_only=True, make=lambda rs, nj: make_reduction(
+        _mkpipe(_Tab(), _tree(rs)), scitype="time-series-regressor", strategy="direct", window_length=3))
     T["fc:tuned_random"] = dict(fam="fc", mode="o", njobs=True, make=lambda rs, nj: ForecastingRandomizedSearchCV(
         NaiveForecaster(strategy="mean"), cv=SlidingWindowSplitter(fh=[1], window_length=5),
         param_distributions={"window_length": [2, 3, 4, 5]}, n_iter=2, random_state=rs, n_jobs=nj))
@@ -567,6 +617,27 @@ def _train_data(c, other=False):
                 return lambda: (ForecastingHorizon(np.array([cutoff + v for v in FH_ARGS[a]], dtype="int64"), is_relative=False),)
             return lambda: (list(FH_ARGS[a]),)
         fitfh = c.get("fitfh", "A")
+        form = c.get("exog")
+        if form:
+            # EXOGENOUS data: fit(y, X, fh), predict(fh, X), update(y, X); X for predict = the rows after the cutoff in
+            # force (`shift` = observations added by update), as many as the horizon reaches ahead (at least one)
+            xs = seed + (1 if other else 0)
+            whole = lambda: mk_exog(xs, n, ik, start, form)
+            cut = (lambda X: X) if form == "nanview" else (lambda X: X.copy())
+
+            def fhx(a):
+                f0 = fh(a)
+
+                def mk(shift=0):
+                    steps = [v - (shift if a.islower() else 0) for v in FH_ARGS[a]]
+                    k = max(1, max(steps))
+                    return f0() + (cut(whole().iloc[n + shift:n + shift + k]),)
+                return mk
+            args = {fitfh: fhx(fitfh)}
+            if e["mode"] == "o":
+                for a in FH_OPTIONAL:
+                    args[a] = fhx(a)
+            return (lambda: (y(), cut(whole().iloc[:n]))), {"fh": fh(fitfh)()[0]}, args
         args = {fitfh: fh(fitfh)}
         if e["mode"] == "o":
             for a in FH_OPTIONAL:
@@ -578,7 +649,10 @@ def _train_data(c, other=False):
             mk = lambda s: scale(mk_series(s, n, ik, start, **kw))
         else:
             mk = lambda s: scale(mk_frame(s, n, ik, start, **kw))
-        return (lambda: (mk(seed),)), {}, {"a": lambda: (mk(seed),), "b": lambda: (mk(seed + 1),)}
+        # "c": the call WITH its second data argument (transform(Z, X): an exogenous frame with gaps, the caller's as well)
+        aux = lambda: mk_exog(seed, n, ik, start, "nan").iloc[:n].copy()
+        fit_a = (lambda: (mk(seed), aux())) if c.get("fitaux") else (lambda: (mk(seed),))
+        return fit_a, {}, {"a": lambda: (mk(seed),), "b": lambda: (mk(seed + 1),), "c": lambda: (mk(seed), aux())}
     # panel
     dims = e.get("dims", 1)
     def X(s):
@@ -588,7 +662,8 @@ def _train_data(c, other=False):
         return to_3d(Xn) if cont == "numpy3D" else Xn
     _, yc, yr = mk_panel(seed, n_inst=c.get("ninst", 10), length=n, dims=dims)
     ytrain = (lambda: yc.copy()) if fam in ("clf", "pt") else (lambda: yr.copy())
-    return (lambda: (X(seed), ytrain())), {}, {"a": lambda: (X(seed),), "b": lambda: (X(seed + 1),)}
+    # "c": the call WITH its second data argument (transform(X, y): the labels)
+    return (lambda: (X(seed), ytrain())), {}, {"a": lambda: (X(seed),), "b": lambda: (X(seed + 1),), "c": lambda: (X(seed), ytrain())}
 
 
 def _update_batch(c):
@@ -596,6 +671,13 @@ def _update_batch(c):
     n, start = c["n"], c.get("start", 0)
     full = mk_series(c["seed"], n + 3, c.get("ikind", "range"), start)
     return full.iloc[n:]
+
+
+def _update_exog(c):
+    """the exogenous rows that go with the update batch"""
+    n = c["n"]
+    X = mk_exog(c["seed"], n, c.get("ikind", "range"), c.get("start", 0), c["exog"]).iloc[n:n + 3]
+    return X if c["exog"] == "nanview" else X.copy()
 
 
 def _mk_est(c, inst):
@@ -642,6 +724,8 @@ def est_state(est):
         y = getattr(est, "_y", None)
         out["y"] = "-" if y is None else result_digest(y)      # values + labels (not the index class: an in-sample
         # predict re-assigns `_y` through combine_first, which turns a RangeIndex into an equal Int64Index)
+        X = getattr(est, "_X", None)
+        out["X"] = "-" if X is None else result_digest(X)      # the remembered exogenous data
         out["fitted"] = repr(getattr(est, "_is_fitted", None))
         out["window_length_"] = repr(getattr(est, "window_length_", None))
         fh = getattr(est, "_fh", None)
@@ -654,14 +738,14 @@ def est_state(est):
 def copy_state_flag(orig, cp):
     """a restored copy must have the observable state of the original, the stored horizon (values AND kind) included"""
     a, b = est_state(orig), est_state(cp)
-    for k in ("cutoff", "y", "fitted", "window_length_", "fh"):
+    for k in ("cutoff", "y", "X", "fitted", "window_length_", "fh"):
         if a.get(k) != b.get(k):
             return "F:copy-state-" + k
     return "T"
 
 
 def state_flag(before, after):
-    for k in ("cutoff", "y", "fitted", "window_length_"):
+    for k in ("cutoff", "y", "X", "fitted", "window_length_"):
         if before.get(k) != after.get(k):
             return "F:state-" + k
     return "T"
@@ -672,7 +756,7 @@ KW_NAMES = {   # parameter names of the unchanged signatures, per family (used w
     "pt": {"fit": ["X", "y"], "transform": ["X", "y"], "inverse_transform": ["X", "y"]},
     "clf": {"fit": ["X", "y"], "predict": ["X"], "predict_proba": ["X"]},
     "reg": {"fit": ["X", "y"], "predict": ["X"]},
-    "fc": {"fit": ["y", "X", "fh"], "predict": ["fh"]},
+    "fc": {"fit": ["y", "X", "fh"], "predict": ["fh", "X"]},
 }
 
 
@@ -759,7 +843,9 @@ def run_seq(c):
             insts[inst] = _err(ex)
             obs["errors"].append("fit[%s]: %s: %s" % (inst, type(ex).__name__, str(ex)[:160]))
             if inst == "o":
-                obs["fit"] = _err(ex)
+                # a fit that raises must have left the caller's data alone all the same
+                fl = args_flag(before, snap_args(a))
+                obs["fit"] = _err(ex) + ("" if fl == "T" else "+" + fl)
             return insts[inst]
         if inst == "o":
             obs["fit"] = args_flag(before, snap_args(a))
@@ -797,15 +883,26 @@ def run_seq(c):
             obs["calls"].append([inst, method, rid, "T", "E.nomethod"])
             firsts.setdefault(key, ("E.nomethod", "E.nomethod", False))
             continue
-        a = argmk[base]()
+        exog = isfc and bool(c.get("exog"))
+        a = argmk[base](shift=3) if (exog and pre == "u") else argmk[base]()
         before = snap_args(a)
         st0 = est_state(est) if isfc else {}
         try:
             if pre == "u":
-                _call(est.update, _update_batch(c), update_params=False)
-                st0 = est_state(est)
+                try:
+                    if exog:
+                        _call(est.update, _update_batch(c), _update_exog(c), update_params=False)
+                    else:
+                        _call(est.update, _update_batch(c), update_params=False)
+                finally:
+                    st0 = est_state(est)       # the state comparison is about the apply-type call, not about update
             if method == "inspect":
                 res = inspect_results(est)
+            elif isfc and exog:
+                # predict(fh, X) / predict(X=X): the future values of the exogenous variables go with every call
+                fn = getattr(est, method)
+                res = (_call(fn, X=a[1]) if default_call else _call(fn, **as_keywords(fn, "fc", method, a)) if by_keyword
+                       else _call(fn, *a))
             elif isfc:
                 fn = getattr(est, method)
                 res = _call(fn) if default_call else _call(fn, **as_keywords(fn, "fc", method, a[:1])) if by_keyword else _call(fn, a[0])
@@ -881,10 +978,13 @@ def seq_line(c):
             continue
         seen.add((m, a))
         d0, chg = obs["first"]["%s/%s" % (m, a)]
-        acont = "fh" if e["fam"] == "fc" else cont
+        acont = ("fh+DataFrame" if c.get("exog") else "fh") if e["fam"] == "fc" else cont
+        if e["fam"] in ("st", "pt") and a == "c":
+            acont = cont + ("+DataFrame" if e["fam"] == "st" else "+ndarray")
         entries.append("A:%s:%s:%s:%s:%s" % (_aid(m, a), m, acont, show_bool(chg), d0))
     calls = ["%s:%s" % (inst, _aid(m, a)) for inst, m, a, flag, dig in obs["calls"]]
-    return "C12 seq %s F:%s:%s %s | %s" % (obs["cls"], cont, c.get("ikind", "range"), " ".join(entries), " ".join(calls))
+    fcont = cont + ("+DataFrame" if (e["fam"] == "fc" and c.get("exog")) or (e["fam"] == "st" and c.get("fitaux")) else "+ndarray" if e["fam"] in ("clf", "reg", "pt") else "")
+    return "C12 seq %s F:%s:%s %s | %s" % (obs["cls"], fcont, c.get("ikind", "range"), " ".join(entries), " ".join(calls))
 
 
 # =============================================================================== hampel cases
@@ -1094,10 +1194,16 @@ def oracle(c, out):
         return fails
     if k == "seq":
         site = _site(c, _OBS.get(_ck(c)))
-        cont = c["cont"] + ("/" + c["ikind"] if table()[c["est"]]["fam"] == "fc" else "")
+        cont = c["cont"] + ("/" + c["ikind"] if table()[c["est"]]["fam"] == "fc" else "") + ("+X" if c.get("exog") else "")
         fit, calls = _parse_seq(out)
         if fit.startswith("E."):
-            return [("%s.fit(%s):raised" % (site, cont), "fit raised %s: the estimator can no longer be checked" % fit)]
+            err, _, fl = fit.partition("+")
+            if fl:
+                fails.append(("%s.fit(%s):caller-data-modified:%s" % (site, cont, fl[2:]), "fit raised %s AND changed the caller's argument (%s)" % (err, fl[2:])))
+            if not (c.get("exog") or c.get("fitaux")):
+                fails.append(("%s.fit(%s):raised" % (site, cont), "fit raised %s: the estimator can no longer be checked" % err))
+            # (with exogenous data a fit may raise: missing values the wrapped regressor rejects, strategies without support for X)
+            return fails
         if fit != "T":
             fails.append(("%s.fit(%s):caller-data-modified:%s" % (site, cont, fit[2:]), "fit changed the caller's argument (%s)" % fit[2:]))
         first = {}
@@ -1116,7 +1222,7 @@ def oracle(c, out):
                 fails.append(("%s:restored-copy-state-differs:%s" % (site, flag[13:]),
                               "after a %s the copy's %s differs from the original's" % (what, flag[13:])))
             elif flag != "T":
-                fails.append(("%s.%s(%s):caller-data-modified:%s" % (site, m, c["cont"], flag[2:]), "%s changed the caller's argument (%s), copy %s" % (m, flag[2:], inst)))
+                fails.append(("%s.%s(%s):caller-data-modified:%s" % (site, m, c["cont"] + ("+X" if c.get("exog") else ""), flag[2:]), "%s changed the caller's argument (%s), copy %s" % (m, flag[2:], inst)))
             if dig.startswith("E.pickle") or dig.startswith("E.deepcopy"):
                 fails.append(("%s:%s-failed" % (site, "pickle-round-trip" if dig.startswith("E.pickle") else "deepcopy"), "copying the fitted estimator raised (%s)" % dig))
                 continue
@@ -1200,6 +1306,11 @@ def features(c, out):
         if has_n_jobs(c["est"]):
             f.append("n_jobs-clause=" + c["est"])
         f.append("fit-by-keyword=%s" % bool(c.get("fitkw")))
+        if e["fam"] == "fc":
+            f.append("exog=%s" % (c.get("exog") or "none"))
+        if e["fam"] == "st":
+            f.append("fit-with-X=%s" % bool(c.get("fitaux")))
+        f.append("calls-with-second-data-argument=%d" % sum(1 for x in c["calls"] if (c.get("exog") and e["fam"] == "fc") or (e["fam"] in ("st", "pt") and x[2] == "c")))
         f.append("calls-by-keyword=%d" % sum(1 for x in c["calls"] if len(x) > 3))
         if "rsform" in c:
             f.append("random_state=" + c["rsform"])
@@ -1242,7 +1353,7 @@ SLOW = {"fc:tune_grid_naive_list", "fc:tune_grid_pipeline_list", "fc:tune_grid_m
         "fc:tune_random_naive_list", "fc:tune_random_dist", "clf:boss", "clf:boss_even", "clf:cboss_even", "clf:muse", "clf:stsf", "pt:shapelets", "fc:red_forest", "clf:cboss", "clf:rise", "pt:fitted_param", "fc:tuned_grid_par", "fc:tuned", "fc:tuned_random"}
 
 
-def _seq_case(rng, key, cont, quick, variant=0, rsform=None, compact=False):
+def _seq_case(rng, key, cont, quick, variant=0, rsform=None, compact=False, exog=None):
     e = table()[key]
     fam = e["fam"]
     est = e["make"](1, None)
@@ -1286,6 +1397,12 @@ def _seq_case(rng, key, cont, quick, variant=0, rsform=None, compact=False):
     for cp in ("pk", "dc"):
         for m, a in [rng.choice(fresh), rng.choice(pairs)]:
             extra.append([cp, m, a])
+    if fam in ("st", "pt"):
+        # the second data argument of transform / inverse_transform (X next to Z, y next to X) is the caller's data too
+        m = methods[0]
+        extra += [["o", m, "c"], ["o", m, "c", "k"], [rng.choice(["pk", "dc"]), m, "c"]]
+        if len(methods) > 1 and not (slow or compact):
+            extra += [["o", methods[1], "c"]]
     if e.get("tuner"):
         # the search itself (cv_results_: params, mean scores, ranks; best_params_, best_score_) on every copy
         for inst in ["o", "o"] + twins + ["pk", "fr"]:
@@ -1332,9 +1449,15 @@ def _seq_case(rng, key, cont, quick, variant=0, rsform=None, compact=False):
          "fitkw": bool((variant + rng.randrange(2)) % 2)}
     if fam == "fc":
         c["fitfh"] = fitfh
+        if exog:
+            c["exog"] = exog
     if has_random_state(key):
         forms = [f for f in RS_FORMS if not (f == "rsobj" and e.get("no_rsobj"))]
         c["rsform"] = rsform if rsform in forms else forms[variant % len(forms)] if not quick else rng.choice([f for f in forms if f != "zero"])
+    if fam == "st" and not quick:
+        # fit(Z, X) in a quarter of the thorough cases (a transformer that hands X on to a forecaster without support for
+        # exogenous data raises there: allowed, the caller's data must be intact all the same)
+        c["fitaux"] = (variant + rng.randrange(2)) % 4 == 3
     if fam in ("fc", "st"):
         c["ikind"] = ["int64", "range"][(variant + rng.randrange(2)) % 2] if fam == "st" else ["int64", "range"][(variant // 2 + rng.randrange(2)) % 2]
         c["start"] = 0
@@ -1443,6 +1566,19 @@ def gen_cases(tier, rng):
             for _ in range(1 if quick else 3):
                 cases.append(_big_case(rng, key))
             continue
+        if e["fam"] == "fc":
+            # EXOGENOUS data next to the series (fit(y, X, fh), predict(fh, X), update(y, X)) for every forecaster: frames
+            # with the gaps lagging produces and missing future readings, complete frames, one block / mixed dtypes / a
+            # view on the caller's wider array.  quick: one compact history per forecaster (tuners: one in three, rotating)
+            if quick:
+                forms = [] if (e.get("tuner") and rng.randrange(3)) else [rng.choice(["nan", "nan1", "nanview"] if e.get("exog_only")
+                                                                                   else ["nan", "nan", "nan1", "nanview", "full", "mixed"])]
+            else:
+                forms = EXOG_FORMS[:2] + ["full"] if e.get("tuner") else EXOG_FORMS
+            for i, form in enumerate(forms):
+                cases.append(_seq_case(rng, key, e["conts"][0], quick, variant=i + rng.randrange(2), compact=True, exog=form))
+            if e.get("exog_only"):
+                continue
         for cont in e["conts"]:
             for v in range(reps if not e.get("tuner") else max(1, reps // 2)):      # a tuner case costs about ten ordinary ones
                 cases.append(_seq_case(rng, key, cont, quick, variant=v + rng.randrange(2) if (e["fam"] != "fc" or (quick and e.get("tuner"))) else v))
